@@ -56,7 +56,7 @@ func (c *PContacts) More() bool {
 
 // Reset re-initializes the parsed values.
 func (c *PContacts) Reset() {
-	for i := 0; i < c.VNo(); i++ {
+	for i := 0; i < len(c.Vals); i++ {
 		c.Vals[i].Reset()
 	}
 	v := c.Vals
